@@ -12,6 +12,12 @@ Decided:
         delivered to the layer stack nowhere else in proxy/server.py.
   R22.3 registration: ``Block()`` is in ``default_addons()`` and implements the method name mitmproxy derives from
         ``ClientConnectedHook``.
+  R22.4 the same decision, extracted by interpreting the method's AST (mitmlint.pyint, ``ipaddress`` as trusted library) on
+        representative source addresses of every address class (IPv4 / IPv6 loopback, private, link-local with zone, global,
+        shared/CGNAT, multicast, IPv4-mapped, 6to4, Teredo, NAT64, documentation) x every mode x the four option settings,
+        compared with the reference computed by the checker (strip zone, unwrap ipv4_mapped ONLY, loopback/LocalMode exempt).
+        Robust against refactors of the method (any pure Python), and catches any extra "unwrapping"/normalisation that
+        moves an address into another class.  Bounded: one or two representatives per class.
 NOT decided: the classification of concrete addresses by the ``ipaddress`` module (trusted base), that every listener
 hands its connections to ``handle_client`` (mode_servers.py), and addons that clear ``client.error`` afterwards.
 """
@@ -319,7 +325,60 @@ def r22_2(ctx):
         ctx.ok("R22.2", f"events.Start() constructed only in handle_client ({len(starts)} site)")
 
 
+REPRESENTATIVES = [
+    "127.0.0.1", "127.8.9.10", "10.1.2.3", "192.168.1.7", "172.16.5.4", "169.254.1.1", "100.64.0.1", "8.8.8.8", "93.184.216.34", "224.0.0.1",
+    "::1", "fd00::1", "fe80::1%eth0", "fe80::2%3", "2001:4860:4860::8888", "2606:2800:220:1:248:1893:25c8:1946", "ff02::1",
+    "::ffff:127.0.0.1", "::ffff:10.0.0.1", "::ffff:8.8.8.8", "::ffff:192.168.0.1%eth1",
+    "2002:c0a8:101::1", "2002:7f00:1::1", "2002:808:808::1", "2001:0:4136:e378:8000:63bf:3fff:fdd2", "64:ff9b::808:808", "64:ff9b::a00:1", "2001:db8::1",
+]
+
+
+def r22_4(ctx, meth):
+    import ipaddress
+
+    from ..pyint import Interp
+    from ..pyint import Raised
+    from ..pyint import Rec
+
+    class _Log:
+        def __getattr__(self, name):
+            return lambda *a, **k: None
+
+    modes = mode_classes(ctx)
+    fn = ctx.model.func(BLOCK, f"Block.{meth}")
+    where = (BLOCK, f"Block.{meth}", fn)
+    bad = {}
+    n = 0
+    for peer in REPRESENTATIVES:
+        a = ipaddress.ip_address(peer.split("%")[0])
+        if isinstance(a, ipaddress.IPv6Address) and a.ipv4_mapped:
+            a = a.ipv4_mapped
+        for mode in modes:
+            for bp, bg in itertools.product((False, True), repeat=2):
+                want = False if (a.is_loopback or mode == "LocalMode") else bool((bp and a.is_private) or (bg and a.is_global))
+                it = Interp(ctx.model, trusted_modules={"ipaddress": ipaddress, "logging": _Log()})
+                it.overrides[("mitmproxy/ctx.py", "options")] = Rec("Options", block_private=bp, block_global=bg)
+                it.overrides[(BLOCK, "logger")] = _Log()
+                anc = [c.name for _, c in ctx.model.mro(MODE_SPECS, mode)]
+                client = Rec("Client", _name="client", peername=(peer, 51234), sockname=("192.0.2.1", 8080), proxy_mode=Rec(mode, _bases=tuple(anc[1:])), error=None)
+                try:
+                    it.method(Rec("Block", _impl=(BLOCK, "Block")), meth, client)
+                    got = bool(client.error)
+                except Raised as r:
+                    got = f"raises {r.name}"
+                n += 1
+                if got != want:
+                    bad.setdefault((peer, got, want), f"mode={mode} block_private={bp} block_global={bg}")
+    ctx.cells += n
+    for (peer, got, want), cell in sorted(bad.items(), key=str):
+        ctx.fail("R22.4", where, f"source {peer}: refused={got}, expected {want}", f"first differing cell: {cell}; the address is classified differently from the property (only a zone id may be stripped and only ipv4_mapped unwrapped)")
+    if not bad:
+        ctx.ok("R22.4", f"{n} cells = {len(REPRESENTATIVES)} representative sources x {len(modes)} modes x 4 option settings agree with the reference")
+    ctx.bounds.append(f"R22.4: {len(REPRESENTATIVES)} representative source addresses (1-2 per address class), not all addresses")
+
+
 def check(ctx):
+    ctx.rule("R22.4", "Block.client_connected interpreted on representative addresses of every class equals the reference classification")
     ctx.rule("R22.1", "Block.client_connected decision table over the full abstract domain equals the property's table; the unwrapped address is classified")
     ctx.rule("R22.2", "handle_client: hook awaited, then client.error tested; set error => close, never server_event/handle_connection")
     ctx.rule("R22.3", "Block is a default addon and implements the method name derived from ClientConnectedHook")
@@ -338,8 +397,9 @@ def check(ctx):
     ctx.expect_instances("R22.3", 2)
     if has:
         fn = ctx.func(BLOCK, f"Block.{meth}")
-        r22_1(ctx, fn)
-        ctx.expect_instances("R22.1", 1)
+        ctx.guard(r22_4, ctx, meth)
+        if ctx.guard(r22_1, ctx, fn) is not None:
+            ctx.expect_instances("R22.1", 1)
     r22_2(ctx)
     ctx.expect_instances("R22.2", 2)
 
@@ -350,6 +410,9 @@ _HOOK_THEN_CHECK = (
 )
 
 MUTANTS = [
+    Mutant("unwrap-6to4", BLOCK, "address = address.ipv4_mapped or address", "address = address.ipv4_mapped or address.sixtofour or address", "R22.4"),
+    Mutant("private-includes-linklocal-only", BLOCK, "ctx.options.block_private and address.is_private", "ctx.options.block_private and address.is_link_local", "R22.4"),
+    Mutant("global-means-not-private", BLOCK, "ctx.options.block_global and address.is_global", "ctx.options.block_global and not address.is_private", "R22.4"),
     Mutant("loopback-not-exempt", BLOCK, "if address.is_loopback or isinstance(", "if isinstance(", "R22.1"),
     Mutant("global-option-tests-private", BLOCK, "ctx.options.block_global and address.is_global", "ctx.options.block_global and address.is_private", "R22.1"),
     Mutant("mapped-not-unwrapped", BLOCK, "            address = address.ipv4_mapped or address\n", "            pass\n", "R22.1"),
